@@ -53,6 +53,8 @@ def cases(ctx):
         yield {"kind": "equiv", "seed": rng.getrandbits(32), "child": rng.random() < ctx.pick(0.03, 0.03), "strace": not ctx.quick}
     for i in range(ctx.per_shard(ctx.pick(80, 10000))):
         yield {"kind": "defaults", "seed": rng.getrandbits(32)}
+    for i in range(ctx.per_shard(ctx.pick(4, 120))):
+        yield {"kind": "tty", "seed": rng.getrandbits(32), "what": rng.choice(["undo-no-salt", "undo-no-salt", "missing-output", "undo-with-a"])}
 
 
 # ---- running main() ---------------------------------------------------------------------
@@ -533,6 +535,79 @@ def _defaults(ctx, case, nc, wd):
     ctx.distinct((which, tuple(outs[0][3][:2])))
 
 
+def _tty(ctx, case, nc, wd):
+    """The rejections also hold when a person runs the command at a terminal (stdin/stdout are a pseudo-terminal, and
+    whatever the program might ask is answered): non-zero exit, nothing written, no waiting for input."""
+    import pty
+    import select
+    import time
+
+    rng = random.Random(case["seed"])
+    src = make_input(wd, rng)
+    dst = os.path.join(wd, "out")
+    what = case["what"]
+    argv = {"undo-no-salt": ["-u", "-i", src, "-o", dst], "missing-output": ["-a", "-s", "s1", "-i", src],
+            "undo-with-a": ["-u", "-a", "-s", "s1", "-i", src, "-o", dst]}[what]
+    env = load.child_env(rng.randint(1, 9999))
+    before = fsmon.snapshot(wd)
+    pid, fd = pty.fork()
+    if pid == 0:
+        try:
+            os.chdir(wd)
+            os.execve(sys.executable, [sys.executable, "-m", "netconan.netconan"] + argv, env)
+        finally:
+            os._exit(127)
+    t0 = time.monotonic()
+    seen = b""
+    answered = 0
+    status = None
+    while time.monotonic() - t0 < 90:
+        r, _, _ = select.select([fd], [], [], 0.2)
+        if r:
+            try:
+                chunk = os.read(fd, 4096)
+            except OSError:
+                chunk = b""
+            seen += chunk
+        done, st = os.waitpid(pid, os.WNOHANG)
+        if done:
+            status = st
+            break
+        if answered < 3 and time.monotonic() - t0 > 1.5 + 2 * answered:
+            # whatever it may be asking for: answer it
+            try:
+                os.write(fd, b"typedAtThePrompt\n")
+            except OSError:
+                pass
+            answered += 1
+    if status is None:
+        try:
+            os.kill(pid, 9)
+            os.waitpid(pid, 0)
+        except OSError:
+            pass
+    try:
+        os.close(fd)
+    except OSError:
+        pass
+    after = fsmon.snapshot(wd)
+    ctx.ev()
+    ctx.count("rejection_vectors")
+    ctx.count("rejection_vectors_at_a_terminal")
+    new = sorted(set(after) - set(before))
+    if status is None:
+        ctx.violation(dict(case, argv=argv), "waits-for-terminal-input:" + what, "netconan %r at a terminal did not end within 90 s (output so far %r)" % (argv, seen[-200:]))
+        return
+    rc = os.waitstatus_to_exitcode(status)
+    if rc == 0:
+        ctx.violation(dict(case, argv=argv), "not-rejected:%s:terminal" % what, "netconan %r at a terminal exited 0; created %r; terminal output %r" % (argv, new, seen[-300:]))
+        return
+    if new:
+        ctx.violation(dict(case, argv=argv), "written-before-rejection:%s" % what, "netconan %r at a terminal created %r" % (argv, new))
+        return
+    ctx.distinct(("tty", what, case["seed"]))
+
+
 def check_case(ctx, case):
     nc = load.nc()
     os.makedirs(os.path.join(load.VERIF, ".work"), exist_ok=True)
@@ -546,6 +621,8 @@ def check_case(ctx, case):
             return _equiv(ctx, case, nc, wd)
         if k == "defaults":
             return _defaults(ctx, case, nc, wd)
+        if k == "tty":
+            return _tty(ctx, case, nc, wd)
         raise HarnessError("unknown kind")
     finally:
         shutil.rmtree(wd, ignore_errors=True)
